@@ -11,4 +11,5 @@ def run(tier):
     for rel2, q2, c2, sites, tag in XM.ITEMS:
         if tag == 'C08':
             reps.append(deductive.verify_function(rel2, q2, c2, hooks=XM.hooks(sites), prefix='%s::%s[update equations]' % (rel2, q2)))
+    reps += infer.purity_reports()
     return reps
